@@ -183,6 +183,46 @@ func ccallBody(n int, withCancel bool, outcomes int) func() {
 
 func init() {
 	eng.Register(&eng.Scenario{
+		Name: "ccall-reuse", Props: []string{"C17"}, MustFinish: true, ObsNames: stdObs,
+		Doc:   "CallConcurrently called twice with the same argument slice containing nil entries in every position pattern (choice): every non-nil function runs exactly once per call and the caller's slice is left as it was",
+		Quick: eng.Bounds{PB: 1}, Thorough: eng.Bounds{PB: 2},
+		Body: func() {
+			bg := context.Background()
+			n := 2 + vsched.Choose(2)
+			fns := make([]ccall.CallConcurrentlyFunc, n)
+			isNil := make([]bool, n)
+			for i := range fns {
+				i := i
+				if vsched.Choose(2) == 1 {
+					isNil[i] = true
+					continue
+				}
+				fns[i] = func(ctx context.Context) error {
+					vsched.CtrAdd(c17Ran+4*i, 1)
+					vsched.Observe(oEnter, int64(i), 0, 0)
+					return nil
+				}
+			}
+			for call := 1; call <= 2; call++ {
+				if err := ccall.CallConcurrently(bg, fns...); err != nil {
+					fail("C17.wrong-error", "call %d returned %v although every function returns nil", call, err)
+				}
+				for i := range fns {
+					want := int64(call)
+					if isNil[i] {
+						want = 0
+					}
+					if got := vsched.Ctr(c17Ran + 4*i); got != want {
+						fail("C17.ran-count", "after call %d function %d (nil entry: %v) has run %d times, want %d", call, i, isNil[i], got, want)
+					}
+					if (fns[i] == nil) != isNil[i] {
+						fail("C17.args-modified", "after call %d entry %d of the caller's slice changed (nil before: %v, nil now: %v)", call, i, isNil[i], fns[i] == nil)
+					}
+				}
+			}
+		},
+	})
+	eng.Register(&eng.Scenario{
 		Name: "ccall-0-1", Props: []string{"C17"}, MustFinish: true, ObsNames: stdObs,
 		Doc:   "CallConcurrently with 0 and 1 functions (every outcome incl. a nil entry), caller-cancel thread",
 		Quick: eng.Bounds{PB: 3}, Thorough: eng.Bounds{PB: 6},
